@@ -18,10 +18,11 @@ for d in sorted(glob.glob('/verif/seeded/*/')):
     rows.append(f"| {m['id']} | {needs} | {status} |")
 table = "| id | what it needs to manifest | caught by |\n|---|---|---|\n" + "\n".join(rows)
 n = len(rows)
-missed_first = sum(1 for r in rows if 'missed' in r)
+missed_first = sum(1 for r in rows if '(missed at first' in r)
+not_caught = sum(1 for r in rows if '| missed →' in r)
 p = '/verif/DESIGN.md'
 s = open(p).read()
 a = s.index('<!-- SEEDED-TABLE-BEGIN -->'); b = s.index('<!-- SEEDED-TABLE-END -->')
-s = s[:a] + '<!-- SEEDED-TABLE-BEGIN -->\n' + f"{n} changes so far; {missed_first} of them were missed by the check as it stood when the change arrived and led to a stronger check (details in each `meta.json`).\n\n" + table + '\n' + s[b:]
+s = s[:a] + '<!-- SEEDED-TABLE-BEGIN -->\n' + f"{n} changes so far; {missed_first} of them were missed by the check as it stood when the change arrived and led to a stronger check; {not_caught} are not caught (one made obsolete by a fix, one outside what the claimed properties say — details in each `meta.json`).\n\n" + table + '\n' + s[b:]
 open(p, 'w').write(s)
-print(n, "rows;", missed_first, "missed at first")
+print(n, "rows;", missed_first, "missed at first;", not_caught, "not caught")
